@@ -126,6 +126,8 @@ def compare(out, spec, ref, c):
     for p, ch in ref.vedges:
         vparents.setdefault(ch, set()).add(p)
     for n in vnodes:
+        if n.tag not in vtags:
+            continue  # reported by vt/nodes above
         want = ref._closure(n.tag, {**{v: set() for v in vtags}, **vparents})
         if set(n.get('ancestry')) != want:
             out.fail('vt/ancestry', f'{n.tag}: {sorted(set(n.get("ancestry")) ^ want)[:4]}')
@@ -157,6 +159,10 @@ def classify(out, spec, ref):
     fb = any(a['feedback'] for a in spec['algs'])
     dia = ref.has_diamond()
     out.label('style-' + spec['style'])
+    if any(spec.get('own') or []):
+        out.label('package-with-own-factory')
+    if spec.get('base_depth', 1) > 1:
+        out.label('nested-base-package')
     if dia:
         out.label('diamond')
     if multi:
@@ -190,4 +196,11 @@ def parts(tier):
     return [
         core.Part('graph', execute, strategy=engines.specs(events=True),
                   cases=3000 if q else 100000, batch=250),
+        # engines that use the scanner's extension point (a package brings
+        # its own factory function) and / or live in a nested base package
+        core.Part('layout', execute,
+                  strategy=engines.specs(
+                      events=True, own=True, dotted=True,
+                      styles=('legacy', 'registry', 'registry')),
+                  cases=1500 if q else 40000, batch=250),
     ]
